@@ -160,8 +160,12 @@ def run(ctx):
     E = rule_dm(ctx)
     rule_fiber(ctx, E)
     check_late_binding(ctx, "C07.6", ["devices.DM", "devices.FIBER"])
+    # DM(-D) undoes DM(D), DM(D1) after DM(D2) = DM(D1+D2): only if a call leaves its D (and its field) as it found them
+    from .c14 import rule_inplace
+    rule_inplace(ctx, "C07.8", ["devices.DM", "devices.FIBER"])
     ctx.require_min("C07.1", 2)
     ctx.require_min("C07.3", 4)
     ctx.require_min("C07.4", 1)
     ctx.require_min("C07.5", 2)
     ctx.require_min("C07.7", 1)
+    ctx.require_min("C07.8", 2)
